@@ -173,7 +173,7 @@ def histories_random(ctx):
     from spacepackets.ecss.tm import PusTm
     from spacepackets.ccsds.spacepacket import PacketId, PacketType
     rng = ctx.rng
-    nh = ctx.q(1500, 60000)
+    nh = ctx.q(1500, 20000)       # (60 000 took well over an hour once packets around every 256-octet boundary were added)
     from spacepackets.ccsds.spacepacket import SpacePacket, SpacePacketHeader, SequenceFlags
     for h in range(nh):
         apids = rng.sample(range(0, 2047), 3)
